@@ -207,7 +207,7 @@ PROPS["C17"] = _std(
 # ---------------------------------------------------------------------------------------------
 import json as _json, os as _os, subprocess as _sp
 
-STREAMS = ["C02", "C03", "C04", "C06", "C07", "C08", "C09", "C16"]
+STREAMS = ["C02", "C03", "C04", "C06", "C07", "C08", "C09", "C12", "C16"]
 
 
 def _locate_divergence(sub, tier, ra, rb, bins, scratch, tables_only):
@@ -280,7 +280,7 @@ def _cfgname(r):
 def _c05_runs(tier):
     if tier == "quick":
         cfgs = [R("simd"), R("simd", dispatch="serial"), R("serial32", "rel-notables")]
-        streams = ["C02", "C04", "C07", "C08", "C09", "C16"]
+        streams = ["C02", "C04", "C07", "C08", "C09", "C12", "C16"]
     else:
         cfgs = []
         for v in ("rel", "rel-notables"):
